@@ -407,7 +407,6 @@ def _as_ref_generic(m, st, callee, args, t):
     "alloc::string::<impl core::convert::From<&'a alloc::string::String> for alloc::borrow::Cow<'a, str>>::from",
     "alloc::borrow::Cow::<'_, B>::into_owned",
     "<alloc::borrow::Cow<'_, B> as core::clone::Clone>::clone",
-    "alloc::str::<impl alloc::borrow::ToOwned for str>::to_owned",
 )
 def _into(m, st, callee, args, t):
     v = args[0]
@@ -421,8 +420,9 @@ def _into(m, st, callee, args, t):
     raise AnalysisError("Into::into of %r (%s)" % (v, callee["orig_full"]))
 
 
-@model("<alloc::string::String as core::convert::From<&str>>::from")
+@model("<alloc::string::String as core::convert::From<&str>>::from", "alloc::str::<impl alloc::borrow::ToOwned for str>::to_owned")
 def _string_from(m, st, callee, args, t):
+    # String::from(&str) and str::to_owned(): a new buffer holding a copy of the slice
     return m.world.new_buf(st, _content(m, st, args[0]))
 
 
